@@ -18,7 +18,7 @@ CLAIMS = {
     "C05": ("", "postcondition of the upstream handler on Error: sink ended with that error id; invariant part fwd"),
     "C06": ("stage contracts under the pullable profile + chain lemmas (unit pipeline) + rustc expansion of pipe! (unit pipe_macro)", "per-stage proofs of output = list function of input, demand conservation and completion, for from_iter (base), map/filter/scan/take/skip/concat/flatten (stages) and for_each (terminal); machine-checked chain lemmas for data and for no-stall; pipe! = nested application is decided by letting rustc expand the real macro. Identifying adjacent links and the induction over the number of stages is a stated meta-step"),
     "C07": ("", "data-relation invariant parts over Seq: map_values / filter / running fold / take / skip, with uninterpreted user functions"),
-    "C08": ("merge: members greet inside the subscribing call; merge_L: members greet at any time, greeting obligations only (a late greeter after the end is told to stop and not counted)", "arrival-order data relation, counters tied to member phases by recursive counts with lemmas, Pull-reaches-every-live-member postcondition via a loop invariant, completion gate"),
+    "C08": ("members greet inside the subscribing call or later, in any order; a member that greets after the output is over is told to stop and not counted", "arrival-order data relation, counters tied to member phases by recursive counts with lemmas, Pull-reaches-every-live-member postcondition via a loop invariant, completion gate"),
     "C09": ("n >= 1 in the unit concat, n == 0 in the unit concat0", "lazy-subscription gate (member k+1 only after member k completed), member-order data relation over a recursive concatenation, re-issued Pull postcondition"),
     "C10": ("one generated contract per arity 1..3 of the macro", "latest-value tuple gate at every emission (COMBINE_TUPLE), exactly-one-tuple-per-datum counter invariant, counters tied to member phases, completion gate, Pull-reaches-every-running-member postcondition"),
     "C11": ("", "generation ghost: previous-inner-disposed gate at every inner subscription, routing gate on Pulls, completion gate, one Pull per inner greeting, arrival-order data relation"),
